@@ -98,6 +98,31 @@ var (
 // VerifFailPageWrite makes the k-th page write from now fail (k >= 1); 0 switches the fault off.
 func VerifFailPageWrite(k int) { verifFailAt = k }
 
+// VerifDuringNextPageWrite runs fn once, from inside the I/O hook of the next page write of any store - i.e. after that page
+// was serialised and before it reaches the file, while its store's exclusive lock is held.  Stores have a lock each, so
+// whatever fn does to ANOTHER store is a legal interleaving of the two.  It reports (through the returned function) whether
+// fn has run.
+func VerifDuringNextPageWrite(fn func()) (fired func() bool) {
+	prev := verifHookIO
+	done := false
+	verifHookIO = func(f *fileStore, kind string, off int64, b []byte) {
+		if prev != nil {
+			prev(f, kind, off, b)
+		}
+		if kind == "page" && !done {
+			done = true
+			verifHookIO = prev
+			fn()
+		}
+	}
+	return func() bool {
+		if !done {
+			verifHookIO = prev
+		}
+		return done
+	}
+}
+
 // VerifBreakFile closes the data file under the store: every read (and write) fails until VerifRepairFile.
 func VerifBreakFile(rs *RelationService) {
 	rs.fs.file.Close()
